@@ -102,7 +102,7 @@ def key(R, ctx):
                 n += 1
                 ok = ("#param", 1) in a2.origins(c["args"][1])
                 R.ob(rid, "inline_require|require_stack.push-key", ok, ctx.where(fn2, c.get("ln")), "stack entry derives from the resolved path parameter: %s" % ok)
-        R.require(rid, "inline_require|floor", n >= 3, ctx.where(fn2), "%d keyed operations found (cache get/insert, stack push)" % n)
+        R.require(rid, "inline_require|floor", n >= 2, ctx.where(fn2), "%d keyed operations found (cache get/insert, stack push)" % n)
 
 
 def stack(R, ctx):
@@ -147,7 +147,7 @@ def errors(R, ctx):
                     pushed = any(c.get("k") == "Call" and c.get("fname") == "push" and any(x[1] == "errors" for x in a.origins(c["args"][0]) if x[0] != "#param")
                                  for c in thir.walk(arm["body"]))
                     R.ob(rid, "try_inline_call|err-arm-recorded@%d" % n, pushed, ctx.where(fn, arm.get("l")), "error pushed onto self.errors: %s" % pushed)
-        R.require(rid, "try_inline_call|floor", n >= 2, ctx.where(fn), "%d Err arms" % n)
+        R.require(rid, "try_inline_call|floor", n >= 1, ctx.where(fn), "%d Err arms" % n)
     fn = lib.fn(RPP + "::apply")
     if R.require(rid, "anchor:apply", fn is not None, "", "not found"):
         ok_arms = []
